@@ -4,7 +4,7 @@
 From Coq Require Import Extraction ExtrOcamlBasic.
 From V.Lib Require Import Bytes Base64.
 From V.Lib Require Import NetAddr.
-From V.Model Require Import Signed Cookies CookieStore Jar JarSession Csrf Ticket Bypass Authz Headers Redirect SignOut Refresh StoreFaults Oidc Pkce Upstream Proxy Symbolic Compose Lifetime RefreshChain GenericProvider LegacyHeaders GoPath SignOutRace StampRace Probe.
+From V.Model Require Import Signed Cookies CookieStore Jar JarSession Csrf Ticket Bypass Authz Headers Redirect SignOut Refresh StoreFaults Oidc Pkce Upstream Proxy Symbolic Compose Lifetime RefreshChain GenericProvider LegacyHeaders GoPath SignOutRace StampRace Probe JwtIssuers.
 Extraction Blacklist String List Nat Bytes Int Char Array Buffer Hashtbl Printf Sx Conv Adapters Driver.
 Set Extraction Optimize.
 Separate Extraction
@@ -29,4 +29,4 @@ Separate Extraction
   Pkce.code_verifier Pkce.code_challenge Pkce.oauth_start_pkce
   GoPath.location_header SignOutRace.run SignOutRace.init SignOutRace.both_done StampRace.run StampRace.init StampRace.is_served Upstream.route Upstream.route_gen Upstream.first_match Upstream.less Upstream.forwarded_query Symbolic.auth_request_shape Compose.serve_request Lifetime.redeem_fallbacks Lifetime.request_nonrefreshing RefreshChain.chain_run GenericProvider.generic_login GenericProvider.generic_validate LegacyHeaders.legacy_request_headers LegacyHeaders.legacy_response_headers
   Proxy.serve Proxy.session_chain Proxy.discloses
-  Probe.probe Pkce.method_of_string.
+  Probe.probe Pkce.method_of_string JwtIssuers.parse_jwt_issuer.
